@@ -1,5 +1,6 @@
 import Rangers.Model.Evm11Gas
 import Rangers.Model.Evm11Keccak
+import Rangers.Model.Evm11Secp
 /-!
 # C11 model, part 4: the interpreter loop, the frame skeleton, precompile pricing
 
@@ -215,6 +216,44 @@ def precompileGas (addr : Nat) (input : BA) : Nat :=
 
 def isPrecompile (addr : Nat) : Bool := decide (1 ≤ addr ∧ addr ≤ 18)
 
+/-- the input-length gate at the top of each precompile's `Run` (contracts.go): `false` means
+    `Run` returns an input-length error before touching the input -/
+def precompileLenOk (addr : Nat) (n : Nat) : Bool :=
+  match addr with
+  | 8 => n % 192 == 0
+  | 9 => n == 213
+  | 10 => n == 256
+  | 11 => n == 160
+  | 12 => n != 0 && n % 160 == 0
+  | 13 => n == 512
+  | 14 => n == 288
+  | 15 => n != 0 && n % 288 == 0
+  | 16 => n != 0 && n % 384 == 0
+  | 17 => n == 64
+  | 18 => n == 128
+  | _ => true
+
+/-- `bigModExp.Run`: the three operand lengths are the header words **truncated to 64 bits**
+    (`new(big.Int).SetBytes(…).Uint64()`), whereas `RequiredGas` priced the untruncated words;
+    `Run` allocates `getData(input, …, len)` buffers of these sizes (RightPadBytes) and the
+    `modLen`-byte left-padded result. Zero when base and modulus lengths are both zero. -/
+def modExpRunAlloc (input : BA) : Nat :=
+  let b64 := beNat (getData input 0 32) % 2 ^ 64
+  let e64 := beNat (getData input 32 32) % 2 ^ 64
+  let m64 := beNat (getData input 64 32) % 2 ^ 64
+  if b64 = 0 ∧ m64 = 0 then 0 else b64 + e64 + m64 + m64
+
+/-- bytes `Run` allocates whose amount is dictated by the *content* of the input rather than
+    by its length (fixed-size paddings of ecrecover / bn256, the modexp operand buffers) -/
+def precompileRunAlloc (addr : Nat) (input : BA) : Nat :=
+  match addr with
+  | 1 => 128 + 65 + 32
+  | 5 => modExpRunAlloc input
+  | 6 => 64 + 64 + 64
+  | 7 => 64 + 32 + 64
+  | 9 => 64
+  | _ => 0
+
 /-! ## results -/
 
 /-- result of `EVMInterpreter.Run` plus the gas left in the contract -/
@@ -237,6 +276,7 @@ structure CallRes where
 inductive Req
   | call (k : CallKind) (addr : Nat) (value : Word) (input : BA) (gas : Nat) (retOff retSize : Nat) (inOff : Nat)
   | create (salt : Option Word) (value : Word) (init : BA) (gas : Nat)
+  | authcall (authorized : Nat) (addr : Nat) (value : Word) (input : BA) (gas : Nat) (retOff retSize : Nat)
   deriving Inhabited
 
 /-- what a non-failing `execute` changed (gas is deliberately absent: no
@@ -302,6 +342,22 @@ def mapWord (cx : Ctx) (fr : Frame) (g : Global) (o : MapOp) (x : Word) : Option
   | .getstake => some (10, g)          -- no miner is registered in the modelled world
 
 def secpN : Nat := 0xFFFFFFFFFFFFFFFFFFFFFFFFFFFFFFFEBAAEDCE6AF48A03BBFD25E8CD0364141
+
+/-- `calAuthHash` + `validateAuthAddr` of instructions.go: keccak(0x03 ‖ chainId ‖ invoker ‖ commit),
+    first under the EIP-191 prefix, then raw; true iff the recovered address is `authority` -/
+def authRecovers (chainId : Nat) (invoker : Nat) (commit : BA) (r s vAdapt authority : Nat) : Bool :=
+  let msg := #[(0x03 : UInt8)] ++ natBE 32 chainId ++ natBE 32 invoker ++ commit
+  let hash := Keccak.keccak256 msg
+  let prefixed := Keccak.keccak256 ("\x19Ethereum Signed Message:\n32".toUTF8.data ++ hash)
+  match Secp.recoverAddress (beNat prefixed) r s vAdapt with
+  | some a => if a = authority then true else
+      (match Secp.recoverAddress (beNat hash) r s vAdapt with
+       | some b => b = authority
+       | none => false)
+  | none =>
+      (match Secp.recoverAddress (beNat hash) r s vAdapt with
+       | some b => b = authority
+       | none => false)
 
 def hexTopics (ts : List Word) : String := String.intercalate "." (ts.map hexWord)
 
@@ -552,25 +608,39 @@ def execOp (cx : Ctx) (ro : Bool) (e : Exec) (fr : Frame) (args : List Word) (g 
     | _ => bug
   | .auth =>
     match args with
-    | [_, off, len] =>
+    | [authority, off, len] =>
       if lo64 len < 128 then keep [0] g else
       -- after the fix: the four words are read zero-padded from memory (getData)
       let o := lo64 off
       let v := beNat (getData fr.mem.data o 32)
       let r := beNat (getData fr.mem.data (wadd o 32) 32)
       let s := beNat (getData fr.mem.data (wadd o 64) 32)
+      let commit := getData fr.mem.data (wadd o 96) 32
       let vAdapt := if v % 256 > 26 then (v % 256 + 256 - 27) % 256 else v % 256
       let valid := r ≥ 1 ∧ s ≥ 1 ∧ s ≤ secpN / 2 ∧ r < secpN ∧ s < secpN ∧ (vAdapt = 0 ∨ vAdapt = 1)
-      if valid then .fault .unmodelled g            -- ecrecover is not modelled
+      -- `callContext.authorized = nil` happens before the signature is looked at
+      if ¬ valid then .upd ⟨[0], fr.mem, fr.pc, g, #[], none⟩ else
+      let ok := authRecovers cx.chainId fr.self commit r s vAdapt (addrOf authority)
+      if ok then .upd ⟨[1], fr.mem, fr.pc, g, #[], some (addrOf authority)⟩
       else .upd ⟨[0], fr.mem, fr.pc, g, #[], none⟩
     | _ => bug
   | .authcall =>
     match args with
-    | [_, _, _, _, valueExt, _, _, _, _] =>
+    | [nonce, _, addr, value, valueExt, argsOff, argsLen, retOff, retLen] =>
       if valueExt ≠ 0 then keep [0] g
       else match fr.authorized with
         | none => keep [0] g
-        | some _ => .fault .unmodelled g
+        | some auth =>
+          let data := memRead fr.mem (lo64 argsOff) (lo64 argsLen)
+          match g.askNat ("gn:" ++ hexAddr auth) with
+          | none => .fault (.desync "gn") g
+          | some (expected, g1) =>
+            if expected < lo64 nonce then
+              .upd ⟨[0], memWrite fr.mem (lo64 retOff) (lo64 retLen) "nonce too high".toUTF8.data, fr.pc, g1, #[], fr.authorized⟩
+            else if expected > lo64 nonce then
+              .upd ⟨[0], memWrite fr.mem (lo64 retOff) (lo64 retLen) "nonce too low".toUTF8.data, fr.pc, g1, #[], fr.authorized⟩
+            else
+              .invoke (.authcall auth (addrOf addr) value data callGasTemp (lo64 retOff) (lo64 retLen)) 0 g1
     | _ => bug
   | .unknown => .fault .invalidOpCode g
 
@@ -643,6 +713,8 @@ def runPrecompile (addr : Nat) (input : BA) (gas : Nat) (g : Global) : CallRes :
   | none => ⟨#[], 0, some (.desync ("pc:" ++ hexAddr addr ++ ":" ++ hexBA input)), g, 0⟩
   | some (a, g') =>
     if a.startsWith "ok:" then
+      -- a `Run` that succeeded passed its input-length gate
+      if ¬ precompileLenOk addr input.size then ⟨#[], 0, some (.desync "pc-length-gate"), g', 0⟩ else
       match unhex? (String.ofList (a.toList.drop 3)) with
       | some out => ⟨out, gas - cost, none, g', 0⟩
       | none => ⟨#[], 0, some (.desync "pc-answer"), g', 0⟩
@@ -868,6 +940,59 @@ def evmCreate (cx : Ctx) (run : Runner) (depth : Nat) (ro : Bool) (callerSelf : 
     createFinish cx.gc.p26 address snap
       (runContract run depth ro (mkFrame init gas address callerSelf value #[]) g11)
 
+/-- `evm.AuthCall(sponsor = origin, caller = authorized, …)` (evm.go) -/
+def evmAuthCall (cx : Ctx) (run : Runner) (depth : Nat) (ro : Bool) (auth : Nat)
+    (addr : Nat) (value : Word) (input : BA) (gas : Nat) (g : Global) : CallRes :=
+  if depth > 1024 then ⟨#[], gas, some .depth, g, 0⟩ else
+  let bad (k : String) (g : Global) : CallRes := ⟨#[], gas, some (.desync k), g, 0⟩
+  let sponsor := cx.origin
+  let canTransfer : Option (Bool × Global) :=
+    if value ≠ 0 then
+      match g.askHexNat ("gb:" ++ hexAddr sponsor) with
+      | some (bal, g') => some (decide (bal ≥ value), g')
+      | none => none
+    else some (true, g)
+  match canTransfer with
+  | none => bad "gb" g
+  | some (false, g0) => ⟨#[], gas, some .insufficientBalance, g0, 0⟩
+  | some (true, g0) =>
+  match g0.askNat ("gn:" ++ hexAddr auth) with
+  | none => bad "gn" g0
+  | some (nonce, ga) =>
+  match ga.tell ("sn:" ++ hexAddr auth ++ ":" ++ toString (wadd nonce 1)) with
+  | none => bad "sn" ga
+  | some gb =>
+  match gb.ask "sp" with
+  | none => bad "sp" gb
+  | some (snap, g1) =>
+  match g1.askBool ("ex:" ++ hexAddr addr) with
+  | none => bad "ex" g1
+  | some (exist, g2) =>
+    if ¬ exist ∧ ¬ isPrecompile addr ∧ value = 0 then ⟨#[], gas, none, g2, 0⟩ else
+    let g3? := if exist then some g2 else g2.tell ("ca:" ++ hexAddr addr)
+    match g3? with
+    | none => bad "ca" g2
+    | some g3 =>
+    match g3.tell ("sb:" ++ hexAddr sponsor ++ ":" ++ hexNatMin value) with
+    | none => bad "sb" g3
+    | some g4 =>
+    match g4.tell ("ab:" ++ hexAddr addr ++ ":" ++ hexNatMin value) with
+    | none => bad "ab" g4
+    | some g5 =>
+      if isPrecompile addr then
+        let r := runPrecompile addr input gas g5
+        finishCallRes snap r.ret r.gas r.err r.g
+      else
+        match g5.askBytes ("gc:" ++ hexAddr addr) with
+        | none => bad "gc" g5
+        | some (code, g6) =>
+          if code.size = 0 then ⟨#[], gas, none, g6, 0⟩ else
+          match g6.ask ("gh:" ++ hexAddr addr) with
+          | none => bad "gh" g6
+          | some (_, g7) =>
+            let r := runContract run depth ro (mkFrame code gas addr auth value input) g7
+            finishCallRes snap r.ret r.gas r.err r.g
+
 /-- dispatch of an `ExecOut.invoke` -/
 def doInvoke (cx : Ctx) (run : Runner) (depth : Nat) (ro : Bool) (fr : Frame) (r : Req) (g : Global) : CallRes :=
   match r with
@@ -875,6 +1000,8 @@ def doInvoke (cx : Ctx) (run : Runner) (depth : Nat) (ro : Bool) (fr : Frame) (r
     evmCall run depth ro k fr.self fr.caller fr.value addr value input gas g
   | .create salt value init gas =>
     evmCreate cx run depth ro fr.self salt value init gas g
+  | .authcall auth addr value input gas _ _ =>
+    evmAuthCall cx run depth ro auth addr value input gas g
 
 /-- what `opCall…`/`opCreate…` do with the callee's result -/
 def resume (fr : Frame) (r : Req) (cr : CallRes) : Frame × BA :=
@@ -887,6 +1014,10 @@ def resume (fr : Frame) (r : Req) (cr : CallRes) : Frame × BA :=
     -- back at `retOffset`, so it sees that write where the two windows overlap
     let res := if addr = 4 ∧ cr.err.isNone ∧ input.size > 0 then memRead mem inOff input.size else cr.ret
     ({ fr with stack := flag :: fr.stack, mem := mem, gas := wadd fr.gas cr.gas }, res)
+  | .authcall _ _ _ _ _ retOff retSize =>
+    let flag : Word := if cr.err.isSome then 0 else 1
+    let mem := if cr.err.isNone ∨ cr.err = some .reverted then memWrite fr.mem retOff retSize cr.ret else fr.mem
+    ({ fr with stack := flag :: fr.stack, mem := mem, gas := wadd fr.gas cr.gas }, cr.ret)
   | .create _ _ _ _ =>
     let w : Word := if cr.err.isSome then 0 else cr.addr
     ({ fr with stack := w :: fr.stack, gas := wadd fr.gas cr.gas },
@@ -902,11 +1033,15 @@ def finishStep (info : OpInfo) (cont : Frame → Global → RunRes) (fr2 : Frame
   else if info.halts then ⟨res, none, fr2.gas, g3⟩
   else cont (if info.jumps then fr2 else { fr2 with pc := fr2.pc + 1 }) g3
 
+/-- ghost bookkeeping at the head of an iteration -/
+def Global.observe (g : Global) (depth stackLen : Nat) : Global :=
+  { g with steps := g.steps + 1, hwStack := max g.hwStack stackLen, hwDepth := max g.hwDepth depth }
+
 /-- `EVMInterpreter.Run`'s `for` loop. `depth` is `evm.depth` inside this Run. -/
 def runLoop (cx : Ctx) : (fuel : Nat) → Runner
   | 0, _, _, fr, g => ⟨#[], some .outOfFuel, fr.gas, g⟩
   | fuel + 1, depth, ro, fr, g =>
-    match stepPre cx ro fr g with
+    match stepPre cx ro fr (g.observe depth fr.stack.length) with
     | .fault e g' => ⟨#[], some e, fr.gas, g'⟩
     | .ok info fr1 args g1 cgt =>
       match execOp cx ro info.exec fr1 args g1 cgt with
